@@ -321,6 +321,42 @@ def main():
         put("layout", lname, lambda text=text, fname=fname, what=what: hash_layout(text, fname, what),
             "%s: arguments fed to each hash object of `%s`, in source order" % (what, fname))
 
+    # semantics the model takes from `#[derive(..)]`: Clone is a field-wise copy, == / Ord / Hash are structural over all fields,
+    # nothing runs on drop, Default is what the listed impls say.  The translator lists (a) every hand-written impl of one of those
+    # traits and (b) the derive list of every struct / enum, for the non-test part of every source file
+    STRUCT_TRAITS = ("Clone", "Copy", "PartialEq", "Eq", "Hash", "Ord", "PartialOrd", "Default", "Drop")
+    manual, derives = [], []
+    srcdir = os.path.join(repo, "src")
+    for root, _, files in sorted(os.walk(srcdir)):
+        for f in sorted(files):
+            if not f.endswith(".rs") or f == "test.rs":
+                continue
+            rel = os.path.relpath(os.path.join(root, f), repo)
+            text = src(rel)
+            for m in re.finditer(r'\bimpl\s*(?:<[^>{]*>\s*)?(?:[\w:]+::)?(\w+)(?:<[^>{]*>)?\s+for\s+(\$?\w+)', text):
+                if m.group(1) in STRUCT_TRAITS:
+                    manual.append("%s for %s @%s" % (m.group(1), m.group(2), rel))
+            for m in re.finditer(r'#\[derive\(([^)]*)\)\]\s*(?:#\[[^\]]*\]\s*)*(?:pub(?:\([^)]*\))?\s+)?(?:struct|enum)\s+(\$?\w+)', text):
+                ds = [d.strip().split("::")[-1] for d in m.group(1).split(",") if d.strip()]
+                derives.append("%s @%s: %s" % (m.group(2), rel, " ".join(d for d in ds if d in STRUCT_TRAITS)))
+            # a struct / enum with no derive attribute at all still matters (it then has none of the traits)
+            for m in re.finditer(r'(?<!\]\n)(?<!\] )\b(?:pub(?:\([^)]*\))?\s+)?(?:struct|enum)\s+(\$?\w+)', text):
+                if not any(d.startswith(m.group(1) + " @" + rel + ":") for d in derives):
+                    derives.append("%s @%s: " % (m.group(1), rel))
+    groups = [("structuralSrp", ("src/key.rs", "src/server.rs", "src/client.rs", "src/primes.rs", "src/bigint.rs", "src/srp_internal.rs", "src/srp_internal_client.rs", "src/lib.rs", "src/error.rs", "src/hex.rs")),
+              ("structuralNStr", ("src/normalized_string.rs",)),
+              ("structuralVanilla", ("src/vanilla_header/",)), ("structuralTbc", ("src/tbc_header/",)),
+              ("structuralWrath", ("src/wrath_header/", "src/rc4.rs")),
+              ("structuralAux", ("src/pin.rs", "src/integrity.rs", "src/matrix_card.rs"))]
+    allf = sorted(manual) + sorted(set(derives))
+    seen = set()
+    for gname, prefixes in groups:
+        mine = [x for x in allf if any(("@" + p) in x for p in prefixes)]
+        seen.update(mine)
+        L.append("/-- hand-written impls of, and derive lists restricted to, Clone/Copy/PartialEq/Eq/Hash/Ord/PartialOrd/Default/Drop in %s -/\ndef %s : List String := [%s]"
+                 % (", ".join(prefixes), gname, ",\n  ".join(lean_str(x) for x in mine)))
+    L.append("/-- the same for source files outside the groups above (new files) -/\ndef structuralOther : List String := [%s]"
+             % ", ".join(lean_str(x) for x in allf if x not in seen))
     L.append("/-- constants the translator could not find in the source (placeholders were emitted for them) -/\ndef missingConstants : List String := [%s]"
              % ", ".join(lean_str(m.split(":")[0]) for m in missing))
     text = ("/- GENERATED by tools/gen_constants.py from the Rust sources on every run. Do not edit. -/\n"
